@@ -277,6 +277,70 @@ fn c05_suite<S: ShortGroupSignatureScheme + 'static>(em: &mut Emitter, base: &mu
     }
 }
 
+/// a predicate over a *disclosed* claim: the signature proof has no hidden response for it, so nothing can
+/// link the predicate proof to the credential — the verifier must refuse. Deviating holder: real signature
+/// proof of credential A with its id disclosed + a hand-made accumulator proof for another (active) id
+fn revocation_on_disclosed_claim<S: ShortGroupSignatureScheme + 'static>(em: &mut Emitter, rng: &mut Rng, suite: &str) {
+    use credx::knox::accumulator::vb20::{Element, MembershipProofCommitting, ProofParams};
+    use credx::knox::short_group_sig_core::{HiddenMessage, ProofMessage};
+    for k in 0..em.n(2, 8) {
+        let n_claims = 4;
+        let schema = cred_schema(n_claims, &[]);
+        let (public, mut issuer) = credx::issuer::Issuer::<S>::new(&schema);
+        let a = issuer.sign_credential(&claim_vector(rng, n_claims, &format!("dc-a-{}", k), "A", 30)).unwrap();
+        let _b = issuer.sign_credential(&claim_vector(rng, n_claims, &format!("dc-b-{}", k), "B", 31)).unwrap();
+        // A is revoked in half of the runs (the property is about the link, not about A's status)
+        if k % 2 == 0 {
+            issuer.revoke_credentials(&[RevocationClaim::from(format!("dc-a-{}", k).as_str())]).unwrap();
+        }
+        let value = issuer.revocation_registry.value;
+        let wb = issuer.update_revocation_handle(RevocationClaim::from(format!("dc-b-{}", k).as_str())).unwrap();
+        let yb = RevocationClaim::from(format!("dc-b-{}", k).as_str()).to_scalar();
+        let mut ip = public.clone();
+        ip.revocation_registry = value;
+        let nonce = rng.bytes(16);
+        let sig = SignatureStatement { disclosed: ["id".to_string()].into_iter().collect(), id: "sig".to_string(), issuer: ip.clone() };
+        let rev = RevocationStatement { id: "rev".to_string(), reference_id: "sig".to_string(), accumulator: value, verification_key: ip.revocation_verifying_key, claim: 0 };
+        let prover_schema = PresentationSchema::new_with_id(&[sig.clone().into()], "dc");
+        let verifier_schema = PresentationSchema::new_with_id(&[sig.into(), rev.clone().into()], "dc");
+        let mut creds: IndexMap<String, credx::presentation::PresentationCredential<S>> = IndexMap::new();
+        creds.insert("sig".to_string(), a.credential.clone().into());
+        // hand-made accumulator proof for B's id, own blinding; its transcript items
+        let params = ProofParams::new(ip.revocation_verifying_key, Some(&nonce));
+        let committing = MembershipProofCommitting::new(ProofMessage::Hidden(HiddenMessage::ProofSpecificBlinding(yb)), wb, params, ip.revocation_verifying_key);
+        merlin::vlog::take();
+        merlin::vlog::enable(true);
+        let mut t = merlin::Transcript::new(b"scratch");
+        params.add_to_transcript(&mut t);
+        committing.get_bytes_for_challenge(&mut t);
+        merlin::vlog::enable(false);
+        let extra: Vec<(Vec<u8>, Vec<u8>)> = merlin::vlog::take().into_iter().filter(|e| e.kind == 0 && e.label != b"dom-sep").map(|e| (e.label, e.data)).collect();
+        em.oracle_case(&format!("{} revocation-on-disclosed-claim {}", suite, k));
+        let p = match steered_create_ext(&creds, &prover_schema, &verifier_schema, &nonce, None, extra) {
+            Out::Ok(p) => p,
+            _ => {
+                em.count("disclosed-claim:steered-create-failed");
+                continue;
+            }
+        };
+        let proof = committing.gen_proof(Element(p.challenge));
+        let mut v = serde_json::to_value(&p).unwrap();
+        v["proofs"]["rev"] = json!({"Revocation": {"id": "rev", "proof": serde_json::to_value(&proof).unwrap()}});
+        if let Out::Ok(q) = pres_from_value::<S>(&v) {
+            // self-check of the construction: the verifier recomputes exactly the challenge the holder answered
+            let (res, ch, _) = verify_logged(&q, &verifier_schema, &nonce);
+            em.count(&format!("disclosed-claim:{}:{}", res.class(), if ch == Some(q.challenge) { "challenge-matches" } else if ch.is_some() { "challenge-differs" } else { "stopped-before-challenge" }));
+            if res.is_ok() {
+                em.violation(
+                    "c05:predicate-on-disclosed-claim-accepted",
+                    format!("{}: a revocation statement over a disclosed claim is accepted with an accumulator proof for another identifier (nothing links it to the credential)", suite),
+                    json!({"suite": suite, "presentation": v, "schema": serde_json::to_value(&verifier_schema).unwrap_or_default(), "nonce": hexs(&nonce)}),
+                );
+            }
+        }
+    }
+}
+
 pub fn gen_c05(em: &mut Emitter, rng: &mut Rng) {
     em.rule = "deviating holders owning valid credentials, per statement kind (commitment, range via commitment, verifiable encryption, encrypt-and-decrypt, \
                revocation, membership): the real prover runs the predicate sub-protocol on another hidden claim of the same credential / on the other \
@@ -284,6 +348,13 @@ pub fn gen_c05(em: &mut Emitter, rng: &mut Rng) {
                order; predicate proofs are transplanted between runs. oracle: accepted although the value at the referenced claim differs".into();
     c05_suite::<Bbs>(em, rng, "bbs");
     c05_suite::<Ps>(em, rng, "ps");
+    let base = 2 * em.n(12, 120);
+    if em.mine(base) {
+        revocation_on_disclosed_claim::<Bbs>(em, &mut rng.sub(8001), "bbs");
+    }
+    if em.mine(base + 1) {
+        revocation_on_disclosed_claim::<Ps>(em, &mut rng.sub(8002), "ps");
+    }
 }
 
 // ------------------------------------------------------------------------------------------------
@@ -522,4 +593,7 @@ pub fn gen_c09(em: &mut Emitter, rng: &mut Rng) {
     if em.mine(base + 1) {
         c09_layouts::<Ps>(em, &mut rng.sub(9002), "ps");
     }
+    // completeness half: honest holders with identical values under overlapping / bridging equality statements
+    crate::c03::equality_graphs::<Bbs>(em, &mut rng.sub(9003), "bbs");
+    crate::c03::equality_graphs::<Ps>(em, &mut rng.sub(9004), "ps");
 }
